@@ -16,7 +16,10 @@ import (
 	"go.6river.tech/mmmbbb/ent/message"
 	"go.6river.tech/mmmbbb/ent/snapshot"
 	"go.6river.tech/mmmbbb/ent/subscription"
+	"go.6river.tech/mmmbbb/grpc/pubsubpb"
 	"go.6river.tech/mmmbbb/internal/sqltypes"
+	"google.golang.org/grpc/codes"
+	"google.golang.org/grpc/status"
 )
 
 type MsgSpec struct {
@@ -62,6 +65,8 @@ type Op struct {
 	D        int64             `json:"d,omitempty"`
 	Cfg      *SubCfg           `json:"cfg,omitempty"`
 	Labels   map[string]string `json:"labels,omitempty"`
+	// Via = "handler": go through the gRPC handler instead of the action (pull, ack, delay, publish)
+	Via string `json:"via,omitempty"`
 }
 
 func (o Op) String() string { b, _ := json.Marshal(o); return string(b) }
@@ -404,6 +409,48 @@ func (w *World) execInner(op Op, res *Result) string {
 		}
 		res.Ids = append([]uuid.UUID(nil), ids...)
 		idField := " ids=" + IdList(ids)
+		if op.Via == "handler" && op.K != "nack" {
+			strs := make([]string, len(ids))
+			for i, id := range ids {
+				strs[i] = id.String()
+			}
+			subName := "projects/p/subscriptions/any"
+			if op.K == "ack" {
+				_, err := w.Api().Sub.Acknowledge(w.Ctx, &pubsubpb.AcknowledgeRequest{Subscription: subName, AckIds: strs})
+				res.Err, res.Resp = err, grpcErrClass(err)
+				if err == nil {
+					seen := map[uuid.UUID]bool{}
+					cnt := 0
+					for _, id := range ids {
+						if b := res.Before[id]; b != nil && b.CompletedAt == nil && !seen[id] {
+							seen[id] = true
+							cnt++
+						}
+					}
+					res.Resp = fmt.Sprintf("ok:%d", cnt)
+				}
+				return hdr("ack") + idField
+			}
+			secs := op.D / Sec
+			_, err := w.Api().Sub.ModifyAckDeadline(w.Ctx, &pubsubpb.ModifyAckDeadlineRequest{Subscription: subName, AckIds: strs, AckDeadlineSeconds: int32(secs)})
+			res.Err, res.Resp = err, grpcErrClass(err)
+			if err == nil {
+				seen := map[uuid.UUID]bool{}
+				cnt := 0
+				for _, id := range ids {
+					b := res.Before[id]
+					if b == nil || b.CompletedAt != nil || seen[id] {
+						continue
+					}
+					if secs <= 0 || ns(b.AttemptAt) < t+secs*Sec {
+						seen[id] = true
+						cnt++
+					}
+				}
+				res.Resp = fmt.Sprintf("ok:%d", cnt)
+			}
+			return hdr("delay") + idField + fmt.Sprintf(" d=%d", secs*Sec)
+		}
 		switch op.K {
 		case "ack":
 			a := actions.NewAckDeliveries(append([]uuid.UUID(nil), ids...)...)
@@ -589,6 +636,9 @@ func (w *World) execPull(op Op, res *Result, hdr func(string) string) string {
 	if maxBytes == 0 {
 		maxBytes = 10 * 1024 * 1024
 	}
+	if op.Via == "handler" {
+		return w.execPullHandler(op, res, hdr)
+	}
 	a := actions.NewGetSubscriptionMessages(actions.GetSubscriptionMessagesParams{
 		Name: SubName(op.Sub), MaxMessages: op.Max, MaxBytes: maxBytes, MaxBytesStrict: op.Strict, MaxWait: time.Nanosecond,
 	})
@@ -613,4 +663,49 @@ func (w *World) execPull(op Op, res *Result, hdr func(string) string) string {
 	})
 	return hdr("pull") + fmt.Sprintf(" sub=%s max=%d maxbytes=%d strict=%s wait=1 cands=%s",
 		Enc(SubName(op.Sub)), op.Max, maxBytes, boolStr(op.Strict), IdList(cands))
+}
+
+func grpcErrClass(err error) string {
+	if err == nil {
+		return "ok"
+	}
+	switch status.Code(err) {
+	case codes.NotFound:
+		return "E:NotFound"
+	case codes.AlreadyExists:
+		return "E:AlreadyExists"
+	case codes.InvalidArgument:
+		return "E:InvalidArgument"
+	}
+	return "E:Other:" + Enc(err.Error())
+}
+
+// execPullHandler: the unary Pull handler (ReturnImmediately) — same line format as the action-level pull
+func (w *World) execPullHandler(op Op, res *Result, hdr func(string) string) string {
+	resp, err := w.Api().Sub.Pull(w.Ctx, &pubsubpb.PullRequest{Subscription: SubName(op.Sub), MaxMessages: int32(op.Max), ReturnImmediately: true})
+	res.Err, res.Resp = err, grpcErrClass(err)
+	if err == nil {
+		parts := make([]string, len(resp.ReceivedMessages))
+		for i, rm := range resp.ReceivedMessages {
+			id, _ := uuid.Parse(rm.AckId)
+			mid, _ := uuid.Parse(rm.Message.MessageId)
+			parts[i] = fmt.Sprintf("%s#%d", IdStr(id), rm.DeliveryAttempt)
+			res.Delivered = append(res.Delivered, Delivered{ID: id, MsgID: mid, Attempt: int(rm.DeliveryAttempt), Payload: string(rm.Message.Data),
+				Attrs: rm.Message.Attributes, Key: rm.Message.OrderingKey, PubNs: ns(rm.Message.PublishTime.AsTime())})
+		}
+		// the handler does not report dead-letterings; count the source rows retired by this call
+		ndl := 0
+		for _, st := range w.Ctl.peek() {
+			if st.Kind == "exec" && strings.HasPrefix(st.SQL, "UPDATE `deliveries`") && strings.Contains(st.SQL, "`completed_at` = ?") {
+				ndl++
+			}
+		}
+		res.NumDL = ndl
+		res.Resp = fmt.Sprintf("ok:%s;dl=%d", strings.Join(parts, ","), ndl)
+	}
+	cands := firstQueryCol0(w.Ctl.peek(), func(s string) bool {
+		return strings.Contains(s, "FROM `deliveries`") && strings.Contains(s, "`attempt_at` <= ?")
+	})
+	return hdr("pull") + fmt.Sprintf(" sub=%s max=%d maxbytes=%d strict=false wait=1 cands=%s",
+		Enc(SubName(op.Sub)), op.Max, 10*1024*1024, IdList(cands))
 }
